@@ -583,7 +583,7 @@ class Extractor:
             n = text.count(a)
             if n == 0:
                 self._count(rec, "unmatched-map:" + a, 1)
-                self.unmatched_wraps.append("%s: map %s" % (fs.name, a))
+                self.unmatched_wraps.append("%s: map %s" % (fs.rename or fs.name, a))
                 continue
             text = text.replace(a, b)
             self._count(rec, "map:" + a, n)
@@ -600,7 +600,7 @@ class Extractor:
                     # a wrap is a dialect adapter, not an anchor: when the expression it adapts is gone (the code changed) the
                     # function is verified as it stands - Verus either takes it (decided) or rejects the construct (undecided)
                     self._count(rec, "unmatched-wrap:" + rx, 1)
-                    self.unmatched_wraps.append("%s: %s" % (fs.name, rx))
+                    self.unmatched_wraps.append("%s: %s" % (fs.rename or fs.name, rx))
                 continue
             for m in reversed(ms):
                 # the regex ran on masked text; groups are taken from the *real* text at the same offsets
